@@ -396,6 +396,19 @@ def update_alert_source(sources):
     return ev
 
 
+def inplace_lists(handle, tag):
+    """A metric transaction that edits list-valued members of the state in place (extension element appended, body site
+    appended) instead of assigning new lists - copies retained elsewhere must not follow."""
+    def ev(p):
+        from lxml import etree
+        _need(p, handle)
+        with p.mdib.metric_state_transaction() as tr:
+            st = tr.get_state(handle)
+            st.Extension.append(etree.Element(etree.QName('urn:verif:ext', 'Mark'), attrib={'v': tag}))
+            st.BodySite.append(_pm().CodedValue(f'site-{tag}'))
+    return ev
+
+
 def update_indexed_and_create(which):
     """One descriptor transaction that changes an indexed attribute of an existing descriptor (ConditionSignaled / Source)
     and creates a new descriptor: its report has an update part followed by a create part."""
@@ -554,6 +567,8 @@ EVENTS = [
     ('update-descr(NEW)', update_descriptor(NEW, value='b')),
     ('update-cond-signaled', update_condition_signaled(AC2)),
     ('update-alert-source', update_alert_source([NUM1, NUM2])),
+    ('inplace-lists(N1,a)', inplace_lists(NUM1, 'a')),
+    ('inplace-lists(N1,b)', inplace_lists(NUM1, 'b')),
     ('update-context-descr', update_context_descriptor),
     ('update-cond-signaled+create-metric', update_indexed_and_create('cond-signaled')),
     ('update-alert-source+create-metric', update_indexed_and_create('alert-source')),
